@@ -156,6 +156,35 @@ func c15(c *Ctx) {
 		}
 		c.R.Check(okP, load.FuncName(fn)+": parser schemes", c.pos(fn.Pos()), "parser.New(BuildMetaScheme(), BuildObjectScheme())", "the parser is not built from xpkg.BuildMetaScheme/BuildObjectScheme in that order")
 	}
+	// the meta-type linters are type-exact: nil only on the ok edge of an assertion to their own *pkgmetav1 type
+	for _, it := range []struct{ fn, typ string }{{"IsProvider", "Provider"}, {"IsConfiguration", "Configuration"}, {"IsFunction", "Function"}} {
+		fn := c.fn("internal/xpkg", it.fn)
+		if fn == nil {
+			c.R.Unknown("xpkg."+it.fn, "", "not found")
+			continue
+		}
+		var isT []cfgx.Edge
+		for _, b := range fn.Blocks {
+			for _, in := range b.Instrs {
+				if ta, ok := in.(*ssa.TypeAssert); ok && ta.CommaOk && strings.HasSuffix(ta.AssertedType.String(), "apis/pkg/meta/v1."+it.typ) {
+					if okv := extractOf(ta, 1); okv != nil {
+						t, _ := cfgx.CondEdges(okv)
+						isT = append(isT, t...)
+					}
+				}
+			}
+		}
+		nret := 0
+		for _, b := range fn.Blocks {
+			if r, ok := b.Instrs[len(b.Instrs)-1].(*ssa.Return); ok && nonNilError(r) != "nonnil" {
+				nret++
+				c.requireCross(load.FuncName(fn)+": nil only for *meta/v1."+it.typ+" @b"+itoa(b.Index), r, isT, "the (converted) object is a *pkgmetav1."+it.typ)
+			}
+		}
+		if nret == 0 {
+			c.R.Unknown(load.FuncName(fn)+": success return", c.pos(fn.Pos()), "no nil-capable return found")
+		}
+	}
 	for _, it := range []struct {
 		linter, is string
 		kinds  []string
@@ -487,6 +516,39 @@ func c15(c *Ctx) {
 					c.R.Unknown(site(x)+" verified-status", c.pos(x.Pos()), "cannot determine the constant Status of this condition")
 				}
 			}
+		}
+		// the skip edge `vc.Cosign == nil` is sound only because the store never hands out
+		// a verification config without a cosign section: an incomplete config is an error there
+		if st := c.method("internal/xpkg", "ImageConfigStore", "ImageVerificationConfigFor"); st != nil {
+			var hasCosign []cfgx.Edge
+			for _, b := range st.Blocks {
+				for _, in := range b.Instrs {
+					if bo, ok := in.(*ssa.BinOp); ok && (bo.Op == token.EQL || bo.Op == token.NEQ) && cfgx.IsNilConst(bo.Y) {
+						if _, p, okp := flow.AccessPath(bo.X); okp && strings.HasSuffix(p, "Verification.Cosign") {
+							t, f := cfgx.CondEdges(bo)
+							if bo.Op == token.EQL {
+								hasCosign = append(hasCosign, f...)
+							} else {
+								hasCosign = append(hasCosign, t...)
+							}
+						}
+					}
+				}
+			}
+			nn := 0
+			for _, b := range st.Blocks {
+				if r, ok := b.Instrs[len(b.Instrs)-1].(*ssa.Return); ok && len(r.Results) == 3 {
+					if v := cfgx.ReturnValue(r, 1); v != nil && !cfgx.IsNilConst(v) {
+						nn++
+						c.requireCross(load.FuncName(st)+": verification config returned only with a cosign section @b"+itoa(b.Index), r, hasCosign, "config.Spec.Verification.Cosign != nil")
+					}
+				}
+			}
+			if nn == 0 {
+				c.R.Unknown(load.FuncName(st)+": returns", c.pos(st.Pos()), "no return of a non-nil verification config found")
+			}
+		} else {
+			c.R.Unknown("ImageConfigStore.ImageVerificationConfigFor", "", "not found")
 		}
 		if n < 2 || len(val) != 1 {
 			c.R.Unknown(load.FuncName(sr)+": Verified=True sites", c.pos(sr.Pos()), "expected VerificationSkipped and VerificationSucceeded sites and one Validate call")
